@@ -391,3 +391,8 @@ pub fn read_lines(path: &str) -> Vec<String> {
     });
     txt.lines().filter(|l| !l.trim().is_empty()).map(|l| l.to_string()).collect()
 }
+
+// ---------------------------------------------------------------------------------------------
+// named unit constants of the tree under verification (generated by build.rs)
+// ---------------------------------------------------------------------------------------------
+include!(concat!(env!("OUT_DIR"), "/unit_consts.rs"));
